@@ -66,6 +66,7 @@ import CelloProofs.Lemmas.RegistryInvB
 import CelloProofs.Lemmas.RegistryOrder
 import CelloProofs.Lemmas.RegistrySpec
 import CelloProofs.Lemmas.RegistryRaise
+import CelloProofs.Lemmas.RegistryApi
 
 namespace Cello.Registry
 open RH
@@ -899,5 +900,92 @@ example : ∃ (s : Slots Nat Payload 3), Inv (fun p => p) s ∧ Present s 5 ∧ 
     rcases this with rfl | rfl | rfl <;> simp at he <;> subst he
     · exact ⟨⟨2, 2, ⟨true, true⟩⟩, rfl, by decide⟩
     · exact absurd hpos (by decide)
+
+/-! ### the public entrances (extension round): src/Alloc.c alloc_by / del_by, GC_Show, GC_New -/
+
+/-- **alloc_by, allocator branches** (read from src/Alloc.c): both the branch of a type with its own Alloc instance and the
+    default calloc branch only assign the locals `self` / `head` and call allocation functions — neither changes `method`, talks to
+    the collector or leaves the function (a source in which one of them does is outside the model: `allocBy = none`, and this
+    theorem stops checking; classes c17_j / c17_n) -/
+theorem C17_alloc_branches_only_allocate :
+    branchPlain gcRoutes.ownAssigns gcRoutes.ownCalls = true ∧ branchPlain gcRoutes.defaultAssigns gcRoutes.defaultCalls = true := by
+  constructor <;> decide
+
+/-- **which entry point registers what**, for a type with and without its own allocator: alloc / new_with / the default copy
+    register the object as managed (`GC_Set` with root = false), alloc_root / new_root_with as a root, alloc_raw / new_raw_with
+    do not tell the collector — computed by the interpreter `allocTells` from the `switch (method)` rows, wrapper rows and
+    allocator branches read from the source -/
+theorem C17_alloc_routes_current_source (own : Bool) :
+    allocTells gcRoutes "alloc" own = some (some false) ∧ allocTells gcRoutes "alloc_root" own = some (some true) ∧
+    allocTells gcRoutes "alloc_raw" own = some none ∧
+    allocTells gcRoutes "new_with" own = some (some false) ∧ allocTells gcRoutes "new_root_with" own = some (some true) ∧
+    allocTells gcRoutes "new_raw_with" own = some none ∧ allocTells gcRoutes "copy" own = some (some false) := by
+  cases own <;> decide
+
+/-- del and del_root hand the object to `GC_Rem` (which finalises it) and do nothing else; del_raw runs
+    `dealloc(destruct(self))` without the collector -/
+theorem C17_del_routes_current_source :
+    delTells gcRoutes "del" = some true ∧ delTells gcRoutes "del_root" = some true ∧ delTells gcRoutes "del_raw" = some false := by
+  decide
+
+/-- for EVERY entry point name: what the collector is told does not depend on whether the type brings its own allocator -/
+theorem C17_registration_ignores_allocator (fn : String) : allocTells gcRoutes fn true = allocTells gcRoutes fn false := by
+  have h := C17_alloc_branches_only_allocate
+  have hb : ∀ m, allocBy gcRoutes true m = allocBy gcRoutes false m := by
+    intro m; unfold allocBy; simp [h.1, h.2]
+  unfold allocTells
+  cases allocMethod gcRoutes fn with
+  | none => rfl
+  | some m => simp only [hb m]
+
+/-- **GC_New**: the state built from the `gc->field = value;` statements of the source is the model's initial state
+    (`minptr = UINTPTR_MAX`, `maxptr = 0`, running, no table, no pending list) -/
+theorem C17_init_current_source : regInitFrom CelloGen.Reg.gcNewInit = some Reg.init := rfl
+
+
+/-- **C17 over histories of public calls**: every history of alloc / alloc_raw / alloc_root / new_with / new_raw_with /
+    new_root_with / copy (default path) / del / del_raw / del_root — each on a type with or without its own Alloc instance —,
+    collections, stop and start, routed by the tables of the source as it is now, leaves an exact registry -/
+theorem C17_registry_exact_api (r : Reg) (L : Ledger) (h : ReachA gcCfg gcRoutes r L) : Exact gcCfg r L :=
+  C17_registry_exact r L (reachA_reach gcCfg gcRoutes r L h)
+
+/-- … and never gets stuck -/
+theorem C17_progress_api (r : Reg) (L : Ledger) (h : ReachA gcCfg gcRoutes r L) (call : Call) (op : Op)
+    (hop : call.toOp gcRoutes = some op) (hok : okOp L op) :
+    ∃ r', step gcCfg r op = some r' ∧ ReachA gcCfg gcRoutes r' (ledgerStep r L op) := by
+  obtain ⟨r', h1, _⟩ := C17_progress r L (reachA_reach gcCfg gcRoutes r L h) op hok
+  exact ⟨r', h1, ReachA.step h hop hok h1⟩
+
+/-- **GC_Show** (`show(current(GC))`, the one public view of the root flags): after every such history it prints one row per
+    slot; the occupied rows are exactly the live managed objects with the root flag they were allocated with (`root` / `auto`)
+    and a blank mark column, and no address appears on two rows -/
+theorem C17_show_lists_registry (r : Reg) (L : Ledger) (h : ReachA gcCfg gcRoutes r L) :
+    (showRows r).length = r.n ∧
+    (∀ p b m, (∃ i, (i, some (p, b, m)) ∈ showRows r) ↔ ((p, b) ∈ L ∧ m = false)) ∧
+    (∀ i j p b m b' m', (i, some (p, b, m)) ∈ showRows r → (j, some (p, b', m')) ∈ showRows r → i = j) := by
+  have hx := C17_registry_exact_api r L h
+  exact ⟨showRows_length r, fun p b m => showRows_ledger gcCfg r L hx.entries p b m,
+    fun i j p b m b' m' hi hj => showRows_once _ r hx.inv i j p b m b' m' hi hj⟩
+
+/-- histories of public calls reach states with a non-empty ledger: `new_root(T)` of a type without an allocator of its own -/
+example : ∃ r, ReachA gcCfg gcRoutes r [(8, true)] := by
+  obtain ⟨r', _, h⟩ := C17_progress_api Reg.init [] ReachA.init (.alloc "new_root_with" false 8 []) (.new 8 true [])
+    rfl ⟨by simp, by decide, by decide⟩
+  have hl : ledgerStep Reg.init [] (.new 8 true []) = [(8, true)] := by decide
+  rw [hl] at h
+  exact ⟨r', h⟩
+
+
+/-- the interpreter follows the tables: a switch whose ALLOC_STANDARD case registers a root (the effect of class c17_j), an
+    allocator branch that assigns `method`, a case that returns before the object is handed back (class c17_n) -/
+example : allocTells { gcRoutes with allocSwitch := [("ALLOC_STANDARD", [.set 1]), ("ALLOC_RAW", []), ("ALLOC_ROOT", [.set 1])] } "new_with" false
+    = some (some true) := by decide
+example : allocTells { gcRoutes with ownAssigns := ["self", "method"] } "alloc" true = none := by decide
+example : allocTells { gcRoutes with allocSwitch := [("ALLOC_STANDARD", [.ret, .set 0])] } "alloc" false = none := by decide
+example : delTells { gcRoutes with delSwitch := [("ALLOC_STANDARD", [.rem]), ("ALLOC_ROOT", [.rem, .ret]), ("ALLOC_RAW", [])] } "del" = none := by decide
+
+/-- GC_Show on the demo history: slot 3 holds the marked survivor, slot 4 (displaced from home slot 3) the root -/
+example : (runOps gcCfg Reg.init [] demoOps).map (fun x => showRows x.1) =
+    some [(0, none), (1, none), (2, none), (3, some (demoA, false, false)), (4, some (demoA+440, true, false))] := by decide +kernel
 
 end Cello.Registry
